@@ -27,12 +27,18 @@ func vC16RouteReq(tag, method, path, host string, withFwd bool) *http.Request {
 			h[k] = []string{v}
 		}
 	}
+	if withFwd {
+		// further forwarding-style headers a client may send: present with an arbitrary value
+		for _, k := range []string{"X-Forwarded-Method", "X-Forwarded-Port", "X-Forwarded-Prefix", "X-Forwarded-Scheme", "X-Original-Uri", "X-Original-Method", "Forwarded"} {
+			h[k] = []string{ndString(tag + "-" + k)}
+		}
+	}
 	req := &http.Request{Method: method, Host: host, URL: &url.URL{Path: path}, Header: h, RemoteAddr: "@"}
 	return middlewareapi.AddRequestScope(req, &middlewareapi.RequestScope{ReverseProxy: false})
 }
 
 // bypass decision, API-path decision, trusted-IP decision and OAuth redirect URI are identical with and without forwarding headers (reverse-proxy off, also for requests without Host)
-// verif: unwind=6 strlen=10
+// verif: unwind=6 strlen=10 also=C01
 func vh_C16_routes() {
 	opts := &options.Options{SkipAuthRoutes: []string{"GET=^/public/", "^/open$"}, APIRoutes: []string{"^/api/"}}
 	routes, _ := buildRoutesAllowlist(opts)
@@ -51,6 +57,8 @@ func vh_C16_routes() {
 	r2 := vC16RouteReq("r2", method, path, host, true)
 	verifAssert("C16.routes.same-bypass", p.isAllowedRoute(r1) == p.isAllowedRoute(r2))
 	verifAssert("C16.routes.same-api-path", p.isAPIPath(r1) == p.isAPIPath(r2))
+	p.skipAuthPreflight = ndBool("skip-auth-preflight")
+	verifAssert("C16.routes.same-bypass-decision", p.IsAllowedRequest(r1) == p.IsAllowedRequest(r2))
 	verifAssert("C16.routes.same-trusted-ip", p.isTrustedIP(r1) == p.isTrustedIP(r2))
 	verifAssert("C16.routes.same-redirect-uri", p.getOAuthRedirectURI(r1) == p.getOAuthRedirectURI(r2))
 	verifReach("end")
